@@ -3,7 +3,7 @@ from props import gxcommon as G
 
 
 def run(tier, seed):
-    res = G.gx(G.decl_methods(), ["accept", "term"], "C03/gx", tier)
+    res = G.gx(G.decl_methods(), ["accept", "term", "concrete"], "C03/gx", tier)
     try:
         from pyvc.smt_props import run_functions
         import contracts.declarators as D
